@@ -9,6 +9,8 @@ package guardiand
 // $VERIF_OUT/gov.cases; the Lean driver (family `gov`) replays the model on the same request, compares the full
 // observable result (status code, message, every VAA pushed to the injection channel, digests) and evaluates the
 // C15 Spec (parser-side decoding at the offsets extracted from the Ralph contracts) on the implementation's VAAs.
+// What a call handed to the injection channel is read until quiescence (c15collect): an accepted request owes one VAA per
+// digest it returned, and every goroutine the handler left behind must have ended before the channel is emptied.
 
 import (
 	"bufio"
@@ -19,6 +21,7 @@ import (
 	"os"
 	"path/filepath"
 	"reflect"
+	"runtime"
 	"strconv"
 	"strings"
 	"testing"
@@ -118,6 +121,7 @@ type c15result struct {
 	code uint32
 	msg  string
 	sent []*vaa.VAA
+	nils int // nil pointers found on the injection channel (the processor dereferences what it reads there)
 	digs [][]byte
 }
 
@@ -136,33 +140,119 @@ func c15drain(ch chan *vaa.VAA, skip int) (out []*vaa.VAA) {
 	}
 }
 
-// c15call runs the real handler in-process (a panic is recovered and reported); everything it pushed to the injection
-// channel - after the `prefill` VAAs that were already waiting there - is collected.
-func c15call(s *nodePrivilegedService, ch chan *vaa.VAA, prefill int, req *nodev1.InjectGovernanceVAARequest) (r c15result) {
-	defer func() {
-		if e := recover(); e != nil {
-			r.res = "panic"
-			r.msg = fmt.Sprint(e)
+// c15handlerFrame: how a goroutine that is still busy on behalf of the handler shows in a stack dump - a frame of the handler
+// or of a closure of it, or "created by ...InjectGovernanceVAA in goroutine N".
+const c15handlerFrame = "nodePrivilegedService).InjectGovernanceVAA"
+
+// c15gaveUp: a hand-over that was owed never arrived / a goroutine of the handler never ended within the watchdog; from then
+// on nothing waits any more (the missing VAAs are what the Spec reports).
+var c15gaveUp bool
+
+// c15busy: is any goroutine other than the calling one still running code of (or started by) the handler?
+func c15busy() bool {
+	buf := make([]byte, 1<<20)
+	for {
+		n := runtime.Stack(buf, true)
+		if n < len(buf) {
+			buf = buf[:n]
+			break
 		}
-		r.sent = c15drain(ch, prefill)
-	}()
-	resp, err := s.InjectGovernanceVAA(context.Background(), req)
-	if err != nil {
-		st := status.Convert(err)
-		r.res, r.code, r.msg = "err", uint32(st.Code()), st.Message()
-		if resp != nil {
-			r.res = "errnonnil"
-		}
-		return
+		buf = make([]byte, 2*len(buf))
 	}
-	r.res = "ok"
-	r.digs = resp.Digests
+	blocks := strings.Split(string(buf), "\n\n")
+	for _, b := range blocks[1:] { // the first block is the calling goroutine
+		if strings.Contains(b, c15handlerFrame) {
+			return true
+		}
+	}
+	return false
+}
+
+// c15collect gathers what the handler handed to the injection channel, after the `prefill` VAAs that were already waiting
+// there - until QUIESCENCE, not just what is there when the handler returns: `owed` VAAs are awaited (an accepted request owes one
+// per digest it returned; -1 = not known), then every goroutine the handler may have left behind (more goroutines than before
+// the call: `base`) must have ended, then the channel is emptied.  Barriers only; the one watchdog (10 s) fires once per run.
+func c15collect(ch chan *vaa.VAA, prefill, owed, base int) (out []*vaa.VAA, nils int) {
+	skip := prefill
+	take := func(v *vaa.VAA) {
+		switch {
+		case skip > 0:
+			skip--
+		case v == nil:
+			nils++
+		default:
+			out = append(out, v)
+		}
+	}
+	drain := func() {
+		for {
+			select {
+			case v := <-ch:
+				take(v)
+			default:
+				return
+			}
+		}
+	}
+	drain()
+	if !c15gaveUp && len(out)+nils < owed {
+		wd := time.After(10 * time.Second)
+		for len(out)+nils < owed && !c15gaveUp {
+			select {
+			case v := <-ch:
+				take(v)
+			case <-wd:
+				c15gaveUp = true
+			}
+		}
+	}
+	if !c15gaveUp && runtime.NumGoroutine() > base {
+		t0 := time.Now()
+		for c15busy() {
+			if time.Since(t0) > 10*time.Second {
+				c15gaveUp = true
+				break
+			}
+			runtime.Gosched()
+			time.Sleep(20 * time.Microsecond)
+		}
+	}
+	drain()
+	return
+}
+
+// c15call runs the real handler in-process (a panic is recovered and reported); everything it handed to the injection
+// channel - after the `prefill` VAAs that were already waiting there - is collected (c15collect).
+func c15call(s *nodePrivilegedService, ch chan *vaa.VAA, prefill int, req *nodev1.InjectGovernanceVAARequest) (r c15result) {
+	base := runtime.NumGoroutine()
+	owed := -1
+	func() {
+		defer func() {
+			if e := recover(); e != nil {
+				r.res = "panic"
+				r.msg = fmt.Sprint(e)
+			}
+		}()
+		resp, err := s.InjectGovernanceVAA(context.Background(), req)
+		if err != nil {
+			st := status.Convert(err)
+			r.res, r.code, r.msg = "err", uint32(st.Code()), st.Message()
+			if resp != nil {
+				r.res = "errnonnil"
+			}
+			return
+		}
+		r.res = "ok"
+		r.digs = resp.Digests
+		owed = len(resp.Digests)
+	}()
+	r.sent, r.nils = c15collect(ch, prefill, owed, base)
 	return
 }
 
 func (r c15result) fingerprint() string {
 	var sb strings.Builder
-	fmt.Fprintf(&sb, "%s|%d|%s|", r.res, r.code, r.msg)
+	fmt.Fprintf(&sb, "%s|%d|%s|%d|", r.res, r.code, r.msg, r.nils)
 	for _, v := range r.sent {
 		sb.WriteString(c15canon(v))
 		sb.WriteByte('|')
@@ -235,15 +325,17 @@ func (n *c15node) call(req *nodev1.InjectGovernanceVAARequest) (r c15result) {
 	}
 	ctx, cancel := context.WithTimeout(context.Background(), 60*time.Second)
 	defer cancel()
+	base := runtime.NumGoroutine()
 	resp, err := n.client.InjectGovernanceVAA(ctx, req)
-	r.sent = c15drain(n.ch, n.prefill)
 	if err != nil {
 		st := status.Convert(err)
 		r.res, r.code, r.msg = "err", uint32(st.Code()), st.Message()
+		r.sent, r.nils = c15collect(n.ch, n.prefill, -1, base)
 		return
 	}
 	r.res = "ok"
 	r.digs = resp.Digests
+	r.sent, r.nils = c15collect(n.ch, n.prefill, len(resp.Digests), base)
 	return
 }
 
@@ -450,7 +542,7 @@ func (g *c15gen) emit(kind string, req0 *nodev1.InjectGovernanceVAARequest) {
 			for i, d := range r.digs {
 				digs[i] = c15hex(d)
 			}
-			alt = fmt.Sprintf(" alt=%s altres=%s altcode=%d altmsg=%s altsent=%s altdig=%s", n.label, r.res, r.code, c15str(r.msg), c15canons(r.sent), c15join(digs, ","))
+			alt = fmt.Sprintf(" alt=%s altres=%s altcode=%d altmsg=%s altsent=%s altdig=%s altnil=%d", n.label, r.res, r.code, c15str(r.msg), c15canons(r.sent), c15join(digs, ","), r.nils)
 		}
 	}
 	if len(raw) < 4096 {
@@ -473,9 +565,9 @@ func (g *c15gen) emit(kind string, req0 *nodev1.InjectGovernanceVAARequest) {
 	for i, d := range r1.digs {
 		digs[i] = c15hex(d)
 	}
-	fmt.Fprintf(g.w, "inj %s cc=%d ce=%s gsi=%d ts=%d msgs=%s res=%s code=%d msg=%s sent=%s dig=%s kk=%s ps=%s%s\n",
+	fmt.Fprintf(g.w, "inj %s cc=%d ce=%s gsi=%d ts=%d msgs=%s res=%s code=%d msg=%s sent=%s nil=%d dig=%s kk=%s ps=%s%s\n",
 		id, uint16(g.cfgChain), c15hex(g.cfgAddr[:]), pristine.CurrentSetIndex, pristine.Timestamp, c15join(msgs, ";"),
-		r1.res, r1.code, c15str(r1.msg), c15canons(r1.sent), c15join(digs, ","), c15join(kk, ","), strings.Join(ps, ","), alt)
+		r1.res, r1.code, c15str(r1.msg), c15canons(r1.sent), r1.nils, c15join(digs, ","), c15join(kk, ","), strings.Join(ps, ","), alt)
 }
 
 var c15b32 = []uint32{0, 1, 2, 255, 256, 65535, 65536, 1<<31 - 1, 1 << 31, 1<<32 - 2, 1<<32 - 1}
